@@ -185,11 +185,19 @@ structure NoRec where
   log : List Call
   deriving Repr
 
-/-- `if not recurse:` branch of `Element.validate`:
+/-- `if not recurse:` branch of `Element.validate` (as repaired in 10acb0e):
     `down = self._validate(state, True)`; `self.valid = down if down is Unevaluated else bool(down)`;
-    `up = self._validate(state, False)`; `if up is not Unevaluated: self.valid = bool(up)`; `return self.valid`.
-    As written the ascent result REPLACES the descent result (no `elif element.valid:` guard as in the loop). -/
+    `up = self._validate(state, False)`; `if up is not Unevaluated and self.valid: self.valid = bool(up)`;
+    `return self.valid` — the same two assignments the loop makes for one element. -/
 def validateNoRecurse (i : Info) : NoRec :=
+  let d := validateDown i
+  let u := validateUp i
+  { valid := validAfterUp (validAfterDown d.1) u.1,
+    log := callsOf i.id true d.2 ++ callsOf i.id false u.2 }
+
+/-- the branch as it was BEFORE the repair (`if up is not Unevaluated: self.valid = bool(up)`, no guard): the
+    ascent result replaces the descent result.  Kept as a counter-model (regression witness, KF-C05-a). -/
+def oldValidateNoRecurse (i : Info) : NoRec :=
   let d := validateDown i
   let v₁ := validAfterDown d.1
   let u := validateUp i
